@@ -185,3 +185,32 @@ pub extern "C" fn nf_final() {
     let _ = &CX_RES;
     cover(13);
 }
+
+// ------------------------------------------------------------------ C09, freeze mode (see scn_c09.rs)
+
+/// subject: every writer-side operation on the fallback-only container, a (fully owned) guard held across them
+#[no_mangle]
+pub extern "C" fn nf_s_writer_ops() {
+    let g = a().load();
+    a().store(pool(1).clone());
+    let prev = a().compare_and_swap(pool(1), pool(3).clone());
+    drop(prev);
+    let old = a().rcu(|v| pool((v.idx() + 1) % POOL).clone());
+    drop(old);
+    let old = a().swap(pool(0).clone());
+    drop(old);
+    drop(g);
+    let gb = b().load();
+    drop(gb);
+    cover(13);
+}
+/// frozen reader: two helping loads of A
+#[no_mangle]
+pub extern "C" fn nf_r_load2() {
+    let g = a().load();
+    idx_checked(&g, 33);
+    drop(g);
+    let g = a().load();
+    idx_checked(&g, 34);
+    drop(g);
+}
